@@ -6,6 +6,7 @@ import (
 	"fmt"
 	"os"
 	"path/filepath"
+	"runtime/debug"
 	"sort"
 	"strconv"
 	"strings"
@@ -113,6 +114,7 @@ func Main(args []string) int {
 		spec := specs[id]
 		c := &C{P: p, Prop: id, Tier: *tier, scope: spec.Files, Counts: map[string]int{}, Mins: map[string]int{}, known: known, seen: map[string]bool{}}
 		c.excepted = exceptionTable()
+		simC = c
 		BuildFacts(c)
 		c.Count("packages_loaded", p.NumPkgs)
 		c.Min("packages_loaded", 300)
@@ -122,6 +124,9 @@ func Main(args []string) int {
 			func() {
 				defer func() {
 					if e := recover(); e != nil {
+						if os.Getenv("RG_DEBUG") != "" {
+							fmt.Fprintf(os.Stderr, "analyser panic in %s: %v\n%s\n", r.Name, e, debug.Stack())
+						}
 						c.Undecided(r.Name, fmt.Sprintf("analyser panic: %v", e))
 					}
 				}()
